@@ -355,7 +355,15 @@ def gen_ers_world(rng, stats=None, force=None):
         objs.append(K.daemonset(NS, "legacy", selector=rng.choice([{"matchLabels": {"ds": "legacy"}}, None])))
         for nn in node_names:
             if node_class.get(nn) == "none" and rng.random() < 0.8:
-                objs.append(K.pod(NS, "legacy-" + nn, node=nn, labels={"ds": "legacy"}, ds_owner="legacy", ready=rng.random() < 0.6))
+                # mostly the old DaemonSet's own pods; also pods that merely look like them: owned by a workload of another
+                # kind with the same name, by another DaemonSet, by nobody, or referencing the DaemonSet without controller flag
+                owner = rng.choice(["legacy"] * 6 + [("DaemonSet", "legacy", False), ("StatefulSet", "legacy", True),
+                                                     ("ReplicaSet", "legacy", True), ("DaemonSet", "other", True), None])
+                if stats is not None:
+                    stats.setdefault("old-daemonset pod owners", {})
+                    kk = "DaemonSet legacy (controller)" if owner == "legacy" else str(owner)
+                    stats["old-daemonset pod owners"][kk] = stats["old-daemonset pod owners"].get(kk, 0) + 1
+                objs.append(K.pod(NS, "legacy-" + nn, node=nn, labels={"ds": "legacy"}, ds_owner=owner, ready=rng.random() < 0.6))
     elif rng.random() < 0.08:
         e["metadata"].setdefault("annotations", {})[P.A_OLD_DS] = "legacy"
         if rng.random() < 0.8:
